@@ -192,7 +192,9 @@ pub fn want(c: &DdCase, p: &str) -> bool {
 
 pub fn body<D: Dd>(c: &DdCase) {
     let t = Table::new(&c.shape, c.rub.clone(), true);
-    t.mon.lock().unwrap().expect_impacted = D::POOLED;
+    // (state-wise irrelevance: a merged state may be irrelevant for the variable of the layer it was merged in, and the
+    // property does not forbid expanding it there: the clause is only meaningful for member-wise irrelevance)
+    t.mon.lock().unwrap().expect_impacted = D::POOLED && t.sh.skip.is_none();
     // the protocol monitor aborts a run at the first violation: keep it out of the way of the other properties'
     // obligations (a wrong argument must then show up in THEIR values, e.g. through the bonus family)
     t.mon.lock().unwrap().check_protocol = want(c, "C12");
